@@ -17,7 +17,7 @@ RULE = (
     "on the result.  Solvers: a constraint carrying a SimplificationAvoidanceAnnotation is the same object in "
     "s.constraints after simplify().  Non-trivial: at least one argument subtree carries a NE or relocatable "
     "annotation; distinct by (descriptor, annotation placement) hash."
-    " Session 5 (simplify shard): the top node's annotations edited after construction (replaced, one removed, cleared and re-annotated), so that it no longer carries a copy of its arguments' relocatable annotations. Session 4 (solver shard): annotated conjunctions, implicit simplification by queries, branches, second add+simplify; the annotated object itself must still be among the constraints."
+    " Session 5 (simplify shard): the top node's annotations edited after construction (replaced, one removed, cleared, cleared and re-annotated), so that it no longer carries a copy of its arguments' relocatable annotations. Session 4 (solver shard): annotated conjunctions, implicit simplification by queries, branches, second add+simplify; the annotated object itself must still be among the constraints."
 )
 ASSUMPTIONS = ["annotation identity is the annotation object's own ==/hash (test annotations compare by tag)"]
 
@@ -190,11 +190,14 @@ def run_shard(spec, res):
                     e = e.annotate(an)
                 if rng.random() < 0.35:
                     # the top's own annotations edited afterwards: it no longer carries a copy of what its arguments carry
-                    how = rng.choice(["replace", "remove-one", "remove-then-annotate", "clear-then-annotate"])
+                    how = rng.choice(["replace", "remove-one", "remove-then-annotate", "clear-then-annotate", "clear", "clear"])
                     if how == "replace":
                         e = e.replace_annotations((astwork.NE("edited"),))
                     elif how == "remove-one" and len(e.annotations) > 1:
                         e = e.remove_annotation(rng.choice(e.annotations))
+                    elif how == "clear":
+                        e = e.clear_annotations()
+                        res.count("simplify_top_left_without_annotations")
                     elif how == "remove-then-annotate" and e.annotations:
                         e = e.remove_annotation(rng.choice(e.annotations)).annotate(astwork.REL("edited"))
                     else:
